@@ -7,16 +7,14 @@ def main():
     sizes = lambda b: [b["L"]] * b["NC"]
     desc = lambda o: {k: o["obs"].get(k) for k in ("result", "err", "summary", "count")}
     cfgs = ["MC_BigWig_t1.cfg", "MC_BigWig_t2.cfg"] if run.thorough else ["MC_BigWig_q1.cfg", "MC_BigWig_q2.cfg"]
-    beh = emit(run, "MC_BigWig", cfgs)
-    obs = judge(run, "C06", "Obs_BigWig", make_cases(beh, "bw", sizes, run), lambda o: len(o["items"]) >= 2, desc)
+    obs = run_batches(run, "C06", "MC_BigWig", cfgs, "Obs_BigWig", lambda o: len(o["items"]) >= 2, desc, lambda beh, k0: make_cases(beh, "bw", sizes, run, k0=k0))
     wobs = obs
     run.sample({"kind": "bw", "items": obs[len(obs) // 3]["items"], "summary": obs[len(obs) // 3]["obs"].get("summary")})
     cfgs = ["MC_BigBed_t1.cfg", "MC_BigBed_t2.cfg"] if run.thorough else ["MC_BigBed_q1.cfg", "MC_BigBed_q2.cfg"]
-    beh = emit(run, "MC_BigBed", cfgs)
     def overl(o):
         its = o["items"]
         return any(its[i][0] == its[j][0] and its[i][2] > its[j][1] and its[i][1] < its[j][2] for i in range(len(its)) for j in range(i + 1, len(its)))
-    obs = judge(run, "C06", "Obs_BigBed", make_cases(beh, "bb", sizes, run), overl, desc)
+    obs = run_batches(run, "C06", "MC_BigBed", cfgs, "Obs_BigBed", overl, desc, lambda beh, k0: make_cases(beh, "bb", sizes, run, k0=k0))
     run.sample({"kind": "bb", "items": obs[len(obs) // 3]["items"], "summary": obs[len(obs) // 3]["obs"].get("summary")})
     info_part(run, obs_w_sample=wobs, obs_b_sample=obs)
     run.cov["rule"] = ("all layouts of the C01/C02 generators; a sample also through bigwiginfo / bigbedinfo under position embeddings x1, x1000, x1234567 (thousands separators); non-trivial = at least 2 bigWig values / at least one pair of overlapping bigBed entries; "
